@@ -12,7 +12,8 @@ CLAIM_TEXT = ("Theorems (coq/Props/C01.v, no axioms): decode(encode s) = s for E
               "round-trip (C01_*_params_roundtrip); the SIP URI printer / parser round-trips for every user, password-class password, "
               "accepted host, port and parameter / header list, and a print context is the printer applied to the Table 1 projection "
               "(C01_uri_roundtrip, C01_context_projection); classes, method names and escaping forms are regenerated from the source "
-              "(C01_source_forms); WHOLE MESSAGES (Model/C01m.v): for every start line without CR/LF, every Headers multimap (names = table "
+              "(C01_source_forms); display names of name-addr values: every byte string put between quotes by the printer (quote and backslash "
+              "escaped) is read back unchanged by parse_quoted_string whatever follows (C01_display_name_roundtrip; refuted without the escaping); WHOLE MESSAGES (Model/C01m.v): for every start line without CR/LF, every Headers multimap (names = table "
               "rows or unknown tokens, values without CR/LF and leading blank, UTF-8) and every body, the bytes Endpoint::send_outgoing_* writes "
               "parse back - through the PullParser / Line::parse / Content-Length model shared with C03 - to the same start line, the same "
               "Headers value (Content-Length replaced by the body size) and the same body (C01_message_roundtrip), per name the stored ordered "
@@ -23,7 +24,7 @@ CLAIM_TEXT = ("Theorems (coq/Props/C01.v, no axioms): decode(encode s) = s for E
               "API, printed, parsed by the library and compared field-wise; whole messages (compact and mixed-case spellings, unknown names, "
               "repeated names, an application Content-Length, bodies with CRLFCRLF and header-like text) sent through the real "
               "Endpoint::send_outgoing_request / _response over a mock transport: wire bytes, parsed header list and body = the extracted model's.")
-CLAIM_NOTE = ("PARTIAL: Host::parse (names / IPv4 / IPv6 text) is a validity predicate in the model; name-addr (display-name quoting), the "
+CLAIM_NOTE = ("PARTIAL: Host::parse (names / IPv4 / IPv6 text) is a validity predicate in the model; name-addr beyond the quoted display name (token display names, header parameters), the "
               "typed headers (Via, CSeq, RAck, timers, auth ...) are decided by the differential runs only; header values that begin with white "
               "space are outside the message theorem (the parser strips it, RFC 3261 7.3.1 makes it insignificant); passwords are "
               "restricted to the password character class (they are printed raw, outside what the property names).")
@@ -39,7 +40,7 @@ RULE = ("URIs: user / parameter names / values over strings with every reserved 
         "space, 2/3/4-byte UTF-8), hosts as names / IPv4 / IPv6, ports 1/5060/65535, the Table 1 parameter names, all six print "
         "contexts; name-addr headers with display names and tags; every method name +- one character and case flips; numeric "
         "headers at 0 / 1 / max; whole messages with repeated / compact / mixed-case / unknown header names, bodies of 0..340 bytes")
-PARTIAL = ["Host::parse, name-addr / display names and the typed headers: exercised field-wise, not proved"]
+PARTIAL = ["Host::parse, token display names and the typed headers (Via, auth, timers, lists ...): exercised field-wise (print, parse, Debug-equal, reprint), not proved"]
 
 METHODS = ["INVITE", "ACK", "CANCEL", "BYE", "REGISTER", "MESSAGE", "UPDATE", "PRACK", "OPTIONS", "SUBSCRIBE", "NOTIFY", "PUBLISH", "INFO", "REFER"]
 CTXS = ["none", "requri", "fromto", "contact", "contactreg", "routing"]
@@ -349,6 +350,14 @@ def normalize_impl(case, s):
 def accepts(case, impl, model):
     if case[2] in ("uri", "meth", "msg"):
         return impl == model
+    if case[2] == "na":
+        # the printed header value begins with the display name exactly as the model quotes it, and the model reads its own quoting back
+        m = re.match(r"Q=(\S+)(?:\tN=(\S+))?", model)
+        if not m or m.group(1) == "-":
+            return True
+        t1 = re.match(r"T1=(\S*)", impl)
+        disp = case[3].split("|")[1]
+        return bool(t1) and t1.group(1).startswith(m.group(1)) and m.group(2) == disp
     return True
 
 
